@@ -175,8 +175,12 @@ where
                 // Try with past exporter secrets
                 // Look back as far as the MLS layer is configured to keep past epochs
                 // (never less than the default), so that a window configured above the
-                // default is not cut short by the outer layer.
-                let lookback = DEFAULT_EPOCH_LOOKBACK.max(self.config.max_past_epochs as u64);
+                // default is not cut short by the outer layer, and as far as a commit race can
+                // be resolved by rollback: the better commit of a fork as deep as the snapshot
+                // retention is created that many epochs back.
+                let lookback = DEFAULT_EPOCH_LOOKBACK
+                    .max(self.config.max_past_epochs as u64)
+                    .max(self.config.epoch_snapshot_retention as u64);
                 self.try_decrypt_with_past_epochs(mls_group, encrypted_content, lookback)
             }
         }
